@@ -99,7 +99,19 @@ def frame_network_number_is(net, configured):
 def frame_routed_apdu(snet, sadr, apdu):
     """application data that crossed a router: control = SNET/SLEN/SADR present (0x08),
     no DNET (final hop), then the APDU"""
-    return [0x01, 0x08] + _u16(snet) + [len(sadr)] + list(sadr) + list(apdu)
+    return routed_head(snet, len(sadr)) + list(sadr) + list(apdu)
+
+
+def routed_head(snet, slen):
+    """the fixed part of the above, up to and including SLEN (the caller appends SADR and
+    the APDU, which may be symbolic octet strings)"""
+    return [0x01, 0x08] + _u16(snet) + [slen]
+
+
+def routed_to_head(dnet, dlen):
+    """a packet on its way to a remote station: control = DNET/DLEN/DADR present (0x20);
+    fixed part up to and including DLEN (the caller appends DADR, hop count, APDU)"""
+    return [0x01, 0x20] + _u16(dnet) + [dlen]
 
 
 def frame_who_is_router(net):
